@@ -1,0 +1,4 @@
+// Package verifhook provides named points inside production code paths at which
+// a verification harness can observe progress, stop the process or inject an
+// error. Without the `verif` build tag every function is an empty stub.
+package verifhook
